@@ -11,8 +11,10 @@ from gemato.compression import (
     get_potential_compressed_names,
     get_compressed_suffix_from_filename,
     InvalidCompressedFileExceptions,
+    COMPRESSION_FORMATS,
     )
 from gemato.exceptions import (
+    UnsupportedCompression,
     ManifestMismatch,
     ManifestIncompatibleEntry,
     ManifestCrossDevice,
@@ -316,6 +318,8 @@ class ManifestRecursiveLoader:
             self.sort = False
         if self.compress_format is None:
             self.compress_format = 'gz'
+        elif self.compress_format not in COMPRESSION_FORMATS:
+            raise UnsupportedCompression(self.compress_format)
 
         self.manifest_loader = ManifestLoader(
             self.root_directory, verify_openpgp, self.openpgp_env)
@@ -811,6 +815,8 @@ class ManifestRecursiveLoader:
             compress_watermark = self.compress_watermark
         if compress_format is None:
             compress_format = self.compress_format
+        elif compress_format not in COMPRESSION_FORMATS:
+            raise UnsupportedCompression(compress_format)
         if force:
             self.load_manifests_for_path('', recursive=True)
 
